@@ -221,7 +221,7 @@ def generate(src, strip_comments, fn_body, header):
     if f["errors"]:
         L.append('def expiryFacts : Unit := extraction_failed "%s"' % "; ".join(f["errors"]).replace('"', "'"))
     L.append("/-- per `pub fn` of `impl StorageEngine`: (name, testsExpiry, reaps, writesIndex, removesIndex, mutates) -/")
-    L.append("def storageFns : List (String × Bool × Bool × Bool × Bool × Bool) := [")
+    L.append("def expiryStorageFns : List (String × Bool × Bool × Bool × Bool × Bool) := [")
     rows = ['  ("%s", %s, %s, %s, %s, %s)' % (x["name"], lean_bool(x["testsExpiry"]), lean_bool(x["reaps"]), lean_bool(x["writesIndex"]),
                                             lean_bool(x["removesIndex"]), lean_bool(x["mutates"])) for x in f["fns"]]
     L.append(",\n".join(rows) + "]")
